@@ -288,7 +288,7 @@ template <class T, size_t... D> struct Uni : UniverseBase {
             case 0: r = sc; break;
             case 1: r = sB[s1.at(dims, qi)]; break;
             case 2: r = (T)(sB[s1.at(dims, qi)] * (T)2 + sC[s2.at(dims, qi)]); break;
-            case 3: r = (T)(sB[s1.at(dims, qi)] - sC[s2.at(dims, qi)]); break;
+            case 3: r = (st.a[A_VAL] & 1) ? (T)((T)7 - sB[s1.at(dims, qi)]) : (T)(sB[s1.at(dims, qi)] - sC[s2.at(dims, qi)]); break;
             case 4: r = sB[di]; break;
             case 6: r = evref.data()[di]; break;
             case 7: r = sF[foff + qi]; break;
@@ -306,7 +306,8 @@ template <class T, size_t... D> struct Uni : UniverseBase {
             case 0: do_assign(op, MkView<R>::mk(a, q, fixi, form), sc); break;
             case 1: do_assign(op, MkView<R>::mk(a, q, fixi, form), MkView<R>::mk(b, q1, fixi, 0)); break;
             case 2: do_assign(op, MkView<R>::mk(a, q, fixi, 0), MkView<R>::mk(b, q1, fixi, 0) * (T)2 + MkView<R>::mk(c, q2, fixi, 0)); break;
-            case 3: do_assign(op, MkView<R>::mk(a, q, fixi, 0), MkView<R>::mk(b, q1, fixi, 0) - MkView<R>::mk(c, q2, fixi, 0)); break;
+            case 3: if (st.a[A_VAL] & 1) do_assign(op, MkView<R>::mk(a, q, fixi, 0), (T)7 - MkView<R>::mk(b, q1, fixi, 0));      // scalar on the LEFT of a non-commutative operator
+                    else do_assign(op, MkView<R>::mk(a, q, fixi, 0), MkView<R>::mk(b, q1, fixi, 0) - MkView<R>::mk(c, q2, fixi, 0)); break;
             case 4: do_assign(op, MkView<R>::mk(a, q, fixi, 0), b); break;
             case 6: FullEval<Ten>::go(op, a, b, c); break;
             default: do_assign(op, MkView<R>::mk(a, q, fixi, 0), b + c * (T)2); break;
@@ -374,7 +375,7 @@ template <class T, size_t... D> struct Uni : UniverseBase {
 
     // ---------------------------------------------------------------- K_DYN_ALIAS (C18)
     void dyn_alias(const Step &st, StepCtx &cx) {
-        int op = (int)(st.a[A_OP] % 5); uint32_t fk = st.a[A_RHS] % 4; bool coincident = (st.a[A_FORM] % 4) == 0;
+        int op = (int)(st.a[A_OP] % 5); uint32_t fk = st.a[A_RHS] % 5; bool coincident = (st.a[A_FORM] % 4) == 0;       // fk 4: c - src (scalar on the left)
         normalise(cx.si, op, true);
         Sel<R> d; decode_sel(st, A_D0, 9, d, (st.a[A_FORM] / 4) % 4 != 0);
         seq q[4] = {seq(0, 1), seq(0, 1), seq(0, 1), seq(0, 1)}; int fixi[4] = {0, 0, 0, 0};
@@ -387,12 +388,13 @@ template <class T, size_t... D> struct Uni : UniverseBase {
         T cst = smallval<T>(st.a[A_VAL]);
         auto rhs = [&](const std::vector<T> &src, int qi) -> T {
             T x = src[s1.at(dims, qi)];
-            switch (fk) { case 0: return x; case 1: return (T)(x + cst); case 2: return (T)((T)2 * x - cst); default: return (T)(x + src[s2.at(dims, qi)]); }
+            switch (fk) { case 0: return x; case 1: return (T)(x + cst); case 2: return (T)((T)2 * x - cst); case 4: return (T)(cst - x); default: return (T)(x + src[s2.at(dims, qi)]); }
         };
         bool hazard = alias_model(op, d, rhs, rhs);
         Ten &a = *A;
         Outcome o = window([&] {
-            if (coincident) {
+            if (fk == 4) { if (coincident) do_assign(op, MkView<R>::mk(a, q, fixi, 0), cst - MkView<R>::mk(a, q1, fixi, 0)); else do_assign(op, MkView<R>::mk(a, q, fixi, 0).noalias(), cst - MkView<R>::mk(a, q1, fixi, 0)); }
+            else if (coincident) {
                 switch (fk) {
                 case 0: do_assign(op, MkView<R>::mk(a, q, fixi, 0), MkView<R>::mk(a, q1, fixi, 0)); break;
                 case 1: do_assign(op, MkView<R>::mk(a, q, fixi, 0), MkView<R>::mk(a, q1, fixi, 0) + cst); break;
